@@ -886,9 +886,74 @@ fn gen_hidden_ladder(rng: &mut Rng) -> Q {
     Q { op: "topo".into(), opts: vec![sorting.into(), parents.into()], cutoff: 0, tips, ends, rej: vec![], d }
 }
 
+/// many tips (more than the 20 elements up to which Rust's unstable sorts are insertion sorts) with few distinct
+/// commit times, given in shuffled order: sibling tips on a small base history, some tips deeper (tips on tips)
+fn many_tips(rng: &mut Rng, ntips: usize, sorting: &str, first: bool, graph: u64, with_end: bool) -> Q {
+    let nbase = rng.range(1, 4) as usize;
+    let mut d: Vec<Cm> = Vec::new();
+    for i in 0..nbase {
+        d.push(Cm { time: rng.range(0, 3), gen: 0, parents: if i == 0 { vec![] } else { vec![rng.below(i as u64) as usize] } });
+    }
+    let ntimes = rng.range(1, 4);
+    let mut tips = Vec::new();
+    for _ in 0..ntips {
+        let n = d.len();
+        // mostly siblings on the base, sometimes on top of an earlier tip (different depths), sometimes a merge
+        let mut parents = vec![if rng.chance(1, 6) { rng.below(n as u64) as usize } else { rng.below(nbase as u64) as usize }];
+        if rng.chance(1, 10) {
+            let p2 = rng.below(n as u64) as usize;
+            if !parents.contains(&p2) {
+                parents.push(p2);
+            }
+        }
+        d.push(Cm { time: 5 + rng.range(0, ntimes - 1), gen: 0, parents });
+        tips.push(n);
+    }
+    // shuffle
+    for i in (1..tips.len()).rev() {
+        let j = rng.below(i as u64 + 1) as usize;
+        tips.swap(i, j);
+    }
+    match graph {
+        0 => {}
+        1 => {
+            for i in 0..d.len() {
+                d[i].gen = 1 + d[i].parents.iter().map(|p| d[*p].gen).max().unwrap_or(0);
+            }
+        }
+        _ => assign_gens(rng, &mut d),
+    }
+    let ends = if with_end { vec![rng.below(d.len() as u64) as usize] } else { vec![] };
+    Q {
+        op: "topo".into(),
+        opts: vec![sorting.into(), if first { "first" } else { "all" }.into()],
+        cutoff: 0,
+        tips,
+        ends,
+        rej: vec![],
+        d,
+    }
+}
+
+fn gen_many_tips(rng: &mut Rng) -> Q {
+    let ntips = match rng.below(4) {
+        0 => rng.range(18, 24),
+        1 | 2 => rng.range(21, 45),
+        _ => rng.range(40, 80),
+    } as usize;
+    let sorting = if rng.chance(2, 3) { "topo" } else { "date" };
+    let first = rng.chance(1, 4);
+    let graph = rng.below(3);
+    let with_end = rng.chance(1, 4);
+    many_tips(rng, ntips, sorting, first, graph, with_end)
+}
+
 fn gen_q(rng: &mut Rng) -> Q {
     if rng.chance(1, 12) {
         return gen_hidden_ladder(rng);
+    }
+    if rng.chance(1, 14) {
+        return gen_many_tips(rng);
     }
     let mut d = gen_dag(rng);
     let n = d.len();
@@ -1011,6 +1076,17 @@ fn fixed_block() -> Vec<Case> {
 
 fn gen(rng: &mut Rng, n: usize) -> Vec<Case> {
     let mut out = fixed_block();
+    // boundary: 20 / 21 / 22 / 40 / 80 tips, both orders, with and without commit-graph (own fixed stream)
+    {
+        let mut r = Rng::new(4747);
+        for ntips in [20usize, 21, 22, 40, 80] {
+            for sorting in ["topo", "date"] {
+                for graph in [0u64, 1] {
+                    out.push(to_case(&many_tips(&mut r, ntips, sorting, false, graph, false)));
+                }
+            }
+        }
+    }
     out.truncate(n);
     while out.len() < n {
         out.push(to_case(&gen_q(rng)));
